@@ -75,6 +75,7 @@ def _ensure_loop():
     if _LOOP is None:
         _LOOP = asyncio.new_event_loop()
         asyncio.set_event_loop(_LOOP)
+    return _LOOP
 
 
 class RecCircuit(ProxiedCircuit):
